@@ -12,6 +12,7 @@ Sub-checks
              equal those of its benign twin (same shape, harmless names/values).
 """
 import ast
+import asyncio
 import json
 import re
 
@@ -366,4 +367,88 @@ class Skeleton(Sub):
                                                                       "built" if k1 else "refused"])
 
 
-SUBCHECKS = [Soundness(), Skeleton()]
+class ConcurrentReqs(Sub):
+    """several REQs whose stored queries overlap in time: every answer is judged against ITS OWN filters"""
+
+    name = "concurrent-reqs"
+    examples = {"quick": 300, "thorough": 2400}
+    shards = {"quick": 8, "thorough": 16}
+    rule = ("3..8 REQs of the same shape but different values (tag values, ids, authors, kinds taken from the store) are fed "
+            "back to back on one or two connections without waiting for EOSE (SQL: file database, real threads; LMDB: query "
+            "jobs held back, then released in a drawn order); oracle per subscription id: every EVENT frame carries a stored "
+            "event that may-match that REQ's filter; non-trivial = two overlapping REQs have different, non-empty answers")
+
+    def strategy(self, tier):
+        @st.composite
+        def build(draw):
+            store = draw(qgen.st_store(min_events=4, max_events=12))
+            shape = draw(st.sampled_from(["tag", "tag", "tag+kind", "ids", "authors", "kinds", "tag2"]))
+            pairs = qgen._tagpairs(store) or [("t", "a")]
+            reqs = []
+            for j in range(draw(st.integers(3, 8))):
+                if shape in ("tag", "tag+kind", "tag2"):
+                    n, v = draw(st.sampled_from(pairs))
+                    f = {"#" + n: [v]}
+                    if shape == "tag+kind":
+                        f["kinds"] = [draw(st.sampled_from(store))["kind"]]
+                    if shape == "tag2":
+                        n2, v2 = draw(st.sampled_from(pairs))
+                        f = {"#" + n: [v, v2 if n2 == n else v]}
+                elif shape == "ids":
+                    f = {"ids": [draw(st.sampled_from(store))["id"]]}
+                elif shape == "authors":
+                    f = {"authors": [draw(st.sampled_from(store))["pubkey"]]}
+                else:
+                    f = {"kinds": [draw(st.sampled_from(store))["kind"]]}
+                reqs.append([draw(st.integers(0, 1)), "s%d" % j, f])
+            return {"backend": draw(st.sampled_from(["sql", "sql", "kv"])), "store": store, "reqs": reqs,
+                    "order": draw(st.permutations(list(range(len(reqs)))))}
+        return build()
+
+    def run_case(self, case):
+        return H.run(self._run, case)
+
+    async def _run(self, case):
+        backend = case["backend"]
+        viol = []
+        async with H.Rig(backend, validators=[], file_db=True if backend == "sql" else None) as rig:
+            for ev in case["store"]:
+                await rig.add(ev)
+            stored = await rig.dump()
+            conns = [rig.conn("10.0.0.1"), rig.conn("10.0.0.2")]
+            pool = rig.storage.query_pool if backend == "kv" else None
+            if pool is not None:
+                pool.park = True
+            for ci, sub, f in case["reqs"]:
+                conns[ci].feed(["REQ", sub, f], 0)
+            if pool is not None:
+                for _ in range(30):
+                    await asyncio.sleep(0)
+                pool.park = False
+                for j in case["order"]:
+                    pool.release(min(j, max(0, len(pool.parked) - 1)))
+                    await asyncio.sleep(0)
+                pool.release_all()
+            await rig.settle()
+            answers = {}
+            for ci, sub, f in case["reqs"]:
+                got = [fr[2] for fr in conns[ci].frames() if fr[0] == "EVENT" and fr[1] == sub]
+                answers[sub] = {g.get("id") for g in got if isinstance(g, dict)}
+                for g in got:
+                    ref = stored.get(g.get("id")) if isinstance(g, dict) else None
+                    if ref is None:
+                        viol.append(V("%s-ghost" % backend, "returned object is an accepted, still stored event", sub=sub, got=g))
+                    elif not R.may_match(ref, f):
+                        viol.append(V("%s-unsound:concurrent" % backend, "returned event matches a filter of the REQ it answers",
+                                      backend=backend, sub=sub, filter=f, event=ref, reqs=case["reqs"]))
+                    if viol:
+                        break
+                if viol:
+                    break
+            for c in conns:
+                await c.disconnect()
+        distinct = {frozenset(a) for a in answers.values() if a}
+        return Result(viol[:2], len(distinct) >= 2, ["backend:" + backend])
+
+
+SUBCHECKS = [Soundness(), Skeleton(), ConcurrentReqs()]
